@@ -116,7 +116,7 @@ def main():
         "setup_cmd": "./check setup",
         "hooks": {
             "guard": "verif",
-            "enable": "go build -tags verif -overlay <generated overlay.json>: accessor files and gate shims are ADDED at build time from /verif/harness/overlay; no file of /repo is modified for instrumentation",
+            "enable": "go build -tags verif -overlay <generated overlay.json>: accessor files (harness/overlay_pkg: remote/verif_wire.go for every build; harness/overlay_opt: actor/verif_quiet.go for the C20 harness only) and gate shims (generated from the working tree's sources) are ADDED at build time from /verif/harness; no file of /repo is modified for instrumentation",
             "baseline_off_cmd": "cd /repo && go test -vet=off -count=1 -timeout 25m ./...",
             "source_commits": [],
             "add_only": True,
